@@ -236,6 +236,9 @@ func c19Ops() []c19Op {
 	ops = append(ops,
 		addRel("AddRel(new r2)", j.Rel{FromType: "t", FromName: "r2", ToOne: true, ToType: "u"}),
 		addRel("AddRel(duplicate one)", j.Rel{FromType: "t", FromName: "one", ToOne: true, ToType: "u"}),
+		// names that differ from existing ones by letter case only are other names
+		addRel("AddRel(new ONE)", j.Rel{FromType: "t", FromName: "ONE", ToOne: false, ToType: "u"}),
+		addAttr("AddAttr(new A:bool)", j.Attr{Name: "A", Type: j.AttrTypeBool}),
 	)
 	ops = append(ops,
 		c19Op{name: "SetType(same pointer)", do: func(y *c19Sys) error {
@@ -511,7 +514,7 @@ func c19BFS(c *Ctx, eager bool) *mc.BFS {
 func init() {
 	Register(&Prop{
 		ID: "C19",
-		Rule: "Engine B: breadth-first search over ALL histories (depth <= 4 quick / 5 thorough) of 27 operations on a real SoftCollection whose type has been set: Add of 9 resources (same type, second id, duplicate id, narrower, wider, conflicting kind/cardinality for the same field name, attribute named like a relationship of the collection and vice versa, wrapped struct, empty id), Remove(1|2|9|\"\"), AddAttr(new|duplicate|invalid), AddRel(new|duplicate), SetType(same pointer|new type), Set on the original resources after they were added, reading everything; de-duplicated by deep snapshot. Two searches: in the first nothing is read between the operations of a history (reading is an operation), in the second everything is read after every step (reads cost no depth); after the last step Len, At(-1..Len), Resource(id), GetType and Get of every current field of every stored resource are compared with a list model (order, ids, well-typed values snapshotted at Add, zero for later fields). Every state beyond the initial one is non-trivial",
+		Rule: "Engine B: breadth-first search over ALL histories (depth <= 4 quick / 5 thorough) of 29 operations on a real SoftCollection whose type has been set: Add of 9 resources (same type, second id, duplicate id, narrower, wider, conflicting kind/cardinality for the same field name, attribute named like a relationship of the collection and vice versa, wrapped struct, empty id), Remove(1|2|9|\"\"), AddAttr(new|duplicate|invalid|case twin), AddRel(new|duplicate|case twin), SetType(same pointer|new type), Set on the original resources after they were added, reading everything; de-duplicated by deep snapshot. Two searches: in the first nothing is read between the operations of a history (reading is an operation), in the second everything is read after every step (reads cost no depth); after the last step Len, At(-1..Len), Resource(id), GetType and Get of every current field of every stored resource are compared with a list model (order, ids, well-typed values snapshotted at Add, zero for later fields). Every state beyond the initial one is non-trivial",
 		Assumptions: []string{"after SetType(new type) values of fields that keep name and kind are expected to be retained (natural reading; only the field set is stated)", "only later Set calls on the original are judged, not in-place mutation of its slices"},
 		Harnesses: []Harness{{Name: "C19/histories",
 			Custom: func(c *Ctx) {
